@@ -111,3 +111,12 @@ class Ctx:
 
 class MachineryError(RuntimeError):
     pass
+
+
+def gt(value, tol):
+    """NaN-safe 'value > tol': a NaN (or a non-finite result) counts as exceeding every tolerance - a comparison written as
+    `x > tol` is False for NaN and would silently accept it."""
+    try:
+        return not bool(value <= tol)
+    except Exception:
+        return True
